@@ -601,7 +601,7 @@ def diff(v, var, R):
     if isinstance(v, Rat):
         n, d = v.num, v.den
         if d.is_const():
-            return Rat(diff(n, var, R)) / d
+            return _rat(diff(n, var, R)) / d
         dn, dd = diff(n, var, R), diff(d, var, R)
         return (_rat(dn) * d - _rat(dd) * n) / (d * d)
     out = Rat(R.const(0))
@@ -647,6 +647,17 @@ def _datom(a, var, R):
         if d.is_zero():
             return None
         return -(d * R.trig('sin', args[0]))
+    if kind == 'log' and len(args) == 1:
+        d = diff(args[0], var, R)
+        if d.is_zero():
+            return None
+        return d / _rat(args[0])
+    if kind == 'arctan' and len(args) == 1:
+        d = diff(args[0], var, R)
+        if d.is_zero():
+            return None
+        u = _rat(args[0])
+        return d / (u * u + 1)
     # uninterpreted function: derivative only if no argument depends on var
     for x in args:
         if isinstance(x, (Poly, Rat)) and not diff(x, var, R).is_zero():
